@@ -23,6 +23,19 @@ static inline void cofactor_part(Rep& R, int g, Buf& aff) {
     else { G2v p, t; R.jv_g2_from_affine(1, p.b, aff.p); R.jv_g2_mul_ref(t.b, p.b, k); R.jv_g2affine_from_projective(1, aff.p, t.b); }
 }
 
+// The stored (internal-form) bytes of the x coordinate of a curve point that lies entirely in the cofactor part: fed to a sampler as its next
+// candidate, the candidate has a y, and the cofactor multiple of the resulting point is the identity (probability ~ cofactor/#E for an honest source).
+static inline bool torsion_candidate_raw(Rep& R, int g, uint64_t seed, std::vector<uint8_t>& rawx) {
+    Buf aff(R.sz(g == 1 ? JV_SZ_G1A : JV_SZ_G2A)); Rng r(seed ^ 0x7075);
+    for (int t = 0; t < 200; t++) {
+        uint8_t xle[96]; r.fill(xle, 96); xle[47] &= 0x0F; xle[95] &= 0x0F;
+        int ok = g == 1 ? R.jv_g1a_from_x(aff, xle, 0) : R.jv_g2a_from_x(aff, xle, 0); if (!ok) continue;
+        cofactor_part(R, g, aff);
+        uint8_t c[193]; if (g == 1) R.jv_g1a_canon(c, aff.p); else R.jv_g2a_canon(c, aff.p); if (c[0] == 1) continue;   // (the point was in the subgroup: astronomically unlikely)
+        rawx.assign(aff.p, aff.p + (g == 1 ? 48 : 96)); return true;
+    }
+    return false;
+}
 static inline MPoint mpoint_of_affine(Rep& R, int g, const void* affine) {
     MPoint m; m.g = g; uint8_t c[193];
     if (g == 1) { R.jv_g1a_canon(c, affine); m.inf = c[0] != 0; m.xy.resize(96); if (!m.inf) R.jv_g1a_xy(m.xy.data(), affine); }
